@@ -500,6 +500,7 @@ class IRGenerator:
         if ((item.annotation_type_ns is None)
                 and (item.annotation_type in BUILTIN_ANNOTATION_CLASS_BY_STRING)):
             annotation_class = BUILTIN_ANNOTATION_CLASS_BY_STRING[item.annotation_type]
+            self._check_builtin_annotation_args(annotation_class, item)
             annotation = annotation_class(item.name, namespace, item, *item.args, **item.kwargs)
         else:
             if item.annotation_type_ns is not None:
@@ -513,6 +514,35 @@ class IRGenerator:
 
         env[item.name] = annotation
         return annotation
+
+    @staticmethod
+    def _check_builtin_annotation_args(annotation_class, item):
+        """
+        Checks that the arguments of an annotation definition fit the
+        parameters of the built-in annotation type it instantiates.
+        """
+        argspec = get_args(annotation_class.__init__)  # noqa: E501 # pylint: disable=deprecated-method,useless-suppression
+        # The leading parameters (self, name, namespace, ast_node) are not
+        # supplied by the spec.
+        param_names = argspec.args[4:]
+        num_required = len(param_names) - len(argspec.defaults or ())
+        type_name = quote(item.annotation_type)
+        loc = item.lineno, item.path
+
+        if len(item.args) > len(param_names):
+            raise InvalidSpec(
+                'Too many arguments for annotation type %s (takes at most %d).' %
+                (type_name, len(param_names)), *loc)
+        for key in item.kwargs:
+            if key not in param_names:
+                raise InvalidSpec(
+                    'Unknown argument %s to annotation type %s.' %
+                    (quote(key), type_name), *loc)
+        for i, param_name in enumerate(param_names[:num_required]):
+            if i >= len(item.args) and param_name not in item.kwargs:
+                raise InvalidSpec(
+                    'Missing argument %s for annotation type %s.' %
+                    (quote(param_name), type_name), *loc)
 
     def _create_annotation_type(self, env, item):
         if item.name in env:
